@@ -86,7 +86,7 @@ func Convert(value any, typ reflect.Type) (any, error) { //nolint: gocyclo
 		return rv.Convert(typ).Interface(), nil
 	}
 	if typ == timeType && rv.Kind() == reflect.String {
-		return ParseDate(value.(string))
+		return ParseDate(rv.String())
 	}
 	// currently unused:
 	// case reflect.PtrTo(r.Type()) == typ:
